@@ -932,7 +932,7 @@ var FieldWriteSet = `
 		{{- if Features.WithFieldMask}}
 		if !{{.FieldMask}}.All() {
 			l := len({{.Target}})
-			for i:=0; i < l; i++ {
+			for i:=0; i < len({{.Target}}); i++ {
 				if _, ex := {{.FieldMask}}.Int(i); !ex {
 					l--
 				}
@@ -1002,7 +1002,7 @@ var FieldWriteList = `
 	{{- if Features.WithFieldMask}}
 	if !{{.FieldMask}}.All() {
 		l := len({{.Target}})
-		for i:=0; i < l; i++ {
+		for i:=0; i < len({{.Target}}); i++ {
 			if _, ex := {{.FieldMask}}.Int(i); !ex {
 				l--
 			}
